@@ -4,7 +4,9 @@
    setup --reconfigure, setup --wipe, option-file edits, failing variants) up to a bound satisfies the
    declarative laws stated over the hidden history ("last value the user gave, else creation default", wipe =
    fresh setup with what the user gave, failed step = no-op, ...).
-2. (A) TLC exports every complete history of length 3 over the replay alphabet (quick tier: a seeded sample)
+2. (A) TLC exports every complete history of length 3 over the replay alphabets (the original one; the deprecated /
+   renamed options with value maps, late failures and the deleted option file) and of length 4 over one
+   (old name, replacement) pair at a time (quick tier: seeded samples that cover every situation tag of the model)
    and simulated longer ones; each is replayed with the real CLI in real processes on a generated
    language-less project + subproject (`--backend=none`); after every command the persisted state is projected
    (`meson introspect --buildoptions`, effective subproject values read back from coredata.dat with the tree's
@@ -28,9 +30,28 @@ from .common import Check, MachineryError, SPECS, run_tlc, scratch
 
 PROP = 'C08'
 NONE = '-'
-INIT_FILE = {'ch': ['a', 'b', 'c'], 'def': 'a', 'x': False, 'lr': ['2', '5', '8'], 'sch': ['a', 'b', 'c', 'd']}
+INIT_FILE = {'ch': ['a', 'b', 'c'], 'def': 'a', 'x': False, 'lr': ['2', '5', '8'], 'sch': ['a', 'b', 'c', 'd'], 'present': True}
+# the deprecated / renamed options (Build-options.md "Deprecated options") and the buildtype / debug pair
+REN_PROJECT = ['omode', 'mode', 'oflag', 'nflag', 'ostr', 'nstr', 'oarr', 'narr', 'obool', 'nfeat', 'marr', 'dall', 'dsome']
+OBS_REN = REN_PROJECT + ['dbg']
 DKEY = {'popt': 'popt', 'xopt': 'xopt', 'dl': 'default_library', 'subdl': 'sub:default_library', 'subpopt': 'sub:popt',
-        'subflag': 'sub:flag', 'level': 'level', 'arr': 'arr'}
+        'subflag': 'sub:flag', 'level': 'level', 'arr': 'arr', 'bt': 'buildtype', 'dbg': 'debug'}
+DKEY.update({k: k for k in REN_PROJECT})
+REN_OPTIONS = """\
+option('omode', type: 'combo', choices: ['a', 'b', 'c'], value: 'a', deprecated: 'mode')
+option('mode', type: 'combo', choices: ['a', 'b', 'c'], value: 'b')
+option('oflag', type: 'boolean', value: false, deprecated: 'nflag')
+option('nflag', type: 'boolean', value: true)
+option('ostr', type: 'string', value: 's0', deprecated: 'nstr')
+option('nstr', type: 'string', value: 's1')
+option('oarr', type: 'array', value: ['x'], deprecated: 'narr')
+option('narr', type: 'array', value: ['y'])
+option('obool', type: 'boolean', value: true, deprecated: 'nfeat')
+option('nfeat', type: 'feature', value: 'auto', deprecated: {'true': 'enabled', 'false': 'disabled'})
+option('marr', type: 'array', choices: ['a', 'b', 'c'], value: ['b'], deprecated: {'a': 'c'})
+option('dall', type: 'boolean', value: false, deprecated: true)
+option('dsome', type: 'array', choices: ['a', 'b'], value: ['b'], deprecated: ['a'])
+"""
 
 PROBE = r'''
 import sys, json
@@ -46,6 +67,10 @@ print(json.dumps(out))
 
 
 def write_option_file(src: Path, name: str, f: T.Dict[str, T.Any]) -> None:
+    if not f.get('present', True):      # the option file of the top-level project is deleted
+        if (src / name).exists():
+            (src / name).unlink()
+        return
     txt = "option('popt', type: 'combo', choices: [%s], value: '%s')\n" % (', '.join("'%s'" % c for c in sorted(f['ch'])), f['def'])
     txt += "option('flag', type: 'boolean', value: false)\n"
     # the declared range of `level`: the model says which of the probe values 2, 5, 8 it admits
@@ -53,6 +78,7 @@ def write_option_file(src: Path, name: str, f: T.Dict[str, T.Any]) -> None:
     txt += "option('level', type: 'integer', min: %d, max: %d, value: 5)\n" % (1 if '2' in f['lr'] else 4, 9 if '8' in f['lr'] else 6)
     if f['x']:
         txt += "option('xopt', type: 'string', value: 'xd')\n"
+    txt += REN_OPTIONS
     (src / name).write_text(txt)
     sub = src / 'subprojects' / 'sub'
     if sub.is_dir():
@@ -66,11 +92,16 @@ def make_project(src: Path, optname: str) -> None:
     sub.mkdir(parents=True)
     (src / 'meson.build').write_text(
         "project('top', meson_version: '>=1.2.0')\n"
-        "message('OBS|mv|' + get_option('popt'))\n"
+        "fs = import('fs')\n"
+        "if fs.exists(meson.current_source_dir() / '%s')\n"
+        "  message('OBS|mv|' + get_option('popt'))\n"
+        "endif\n"
         "subproject('sub')\n"
-        "if import('fs').exists(meson.current_source_dir() / 'fail.flag')\n"
+        "if fs.exists(meson.current_source_dir() / 'fail.flag')\n"
         "  error('injected failure')\n"
-        "endif\n")
+        "endif\n"
+        # the latest point at which a (re)configuration can fail: everything has been evaluated, generated and written
+        "meson.add_postconf_script(find_program('sh'), '-c', 'test ! -e \"$MESON_SOURCE_ROOT/postconf-fail.flag\"')\n" % optname)
     (sub / 'meson.build').write_text(
         "project('sub', meson_version: '>=1.2.0')\n"
         "message('OBS|msp|' + get_option('popt'))\n"
@@ -96,6 +127,10 @@ def edit_file(f: T.Dict[str, T.Any], e: T.Dict[str, T.Any]) -> T.Dict[str, T.Any
         f['lr'] = list(e['ch'])
     elif e['t'] == 'subchoices':
         f['sch'] = list(e['ch'])
+    elif e['t'] == 'delfile':
+        f['present'] = False
+    elif e['t'] == 'addfile':
+        f['present'] = True
     else:
         raise MachineryError('unknown edit ' + repr(e))
     return f
@@ -137,11 +172,26 @@ def recorded_cmdline(b: Path) -> T.Dict[str, str]:
     return out
 
 
+def blank_obs(skip: bool) -> T.Dict[str, T.Any]:
+    return {'skip': skip, 'exists': False, 'v': NONE, 'ch': [], 'x': NONE, 'dl': NONE, 'subdl': NONE, 'sp': NONE, 'sf': NONE, 'lv': NONE,
+            'ar': NONE, 'sch': [], 'o': {k: NONE for k in OBS_REN}, 'cmd': {k: NONE for k in DKEY}, 'mv': NONE, 'msp': NONE,
+            'msubdl': NONE, 'msf': NONE}
+
+
+def as_text(v: T.Any) -> str:
+    """an option value as the model writes it: booleans as true / false, arrays comma-joined ("" = the empty array)"""
+    if v is True:
+        return 'true'
+    if v is False:
+        return 'false'
+    if isinstance(v, list):
+        return ','.join(str(x) for x in v)
+    return str(v)
+
+
 def observe(d: Path, env: T.Dict[str, str], out: str, configuring: bool) -> T.Dict[str, T.Any]:
     """project the persisted state of the build directory"""
-    obs: T.Dict[str, T.Any] = {'skip': False, 'exists': False, 'v': NONE, 'ch': [], 'x': NONE, 'dl': NONE, 'subdl': NONE,
-                               'sp': NONE, 'sf': NONE, 'lv': NONE, 'ar': NONE, 'sch': [], 'cmd': {k: NONE for k in DKEY}, 'mv': NONE, 'msp': NONE, 'msubdl': NONE,
-                               'msf': NONE}
+    obs = blank_obs(False)
     b = d / 'build'
     obs['cmd'] = recorded_cmdline(b)
     if not (b / 'meson-private' / 'coredata.dat').exists():
@@ -154,13 +204,17 @@ def observe(d: Path, env: T.Dict[str, str], out: str, configuring: bool) -> T.Di
         intro = {e['name']: e for e in json.loads(txt)}
     except ValueError as e:
         raise MachineryError('meson introspect printed no JSON:\n' + txt[-800:]) from e
-    obs['v'] = intro['popt']['value']
-    obs['ch'] = sorted(intro['popt']['choices'])
+    top = 'popt' in intro        # (the options of the top-level option file vanish together when the file is deleted)
+    obs['v'] = intro['popt']['value'] if top else NONE
+    obs['ch'] = sorted(intro['popt']['choices']) if top else []
     obs['sch'] = sorted(intro['sub:popt']['choices'])
     obs['x'] = intro['xopt']['value'] if 'xopt' in intro else NONE
     obs['dl'] = intro['default_library']['value']
-    obs['lv'] = str(intro['level']['value'])
-    obs['ar'] = ','.join(intro['arr']['value'])        # "" = the empty array
+    obs['lv'] = str(intro['level']['value']) if 'level' in intro else NONE
+    obs['ar'] = ','.join(intro['arr']['value']) if 'arr' in intro else NONE       # "" = the empty array
+    for k in OBS_REN:
+        name = DKEY[k]
+        obs['o'][k] = as_text(intro[name]['value']) if name in intro else NONE
     p = subprocess.run([common.PYTHON, '-c', PROBE, str(common.REPO), str(b), 'sub:default_library', 'sub:popt', 'sub:flag'],
                        cwd=d, env=env, stdout=subprocess.PIPE, stderr=subprocess.PIPE, text=True, timeout=900)
     if p.returncode != 0:
@@ -194,6 +248,7 @@ def replay_history(job: T.Tuple[str, T.List[T.Dict[str, T.Any]], int]) -> T.Dict
             rc, out, how = 0, '', ''
             configuring = False
             flag = src / 'fail.flag'
+            pcflag = src / 'postconf-fail.flag'
             if a == 'Edit':
                 f = edit_file(f, ev['e'])
                 write_option_file(src, optname, f)
@@ -207,6 +262,18 @@ def replay_history(job: T.Tuple[str, T.List[T.Dict[str, T.Any]], int]) -> T.Dict
                 rc, out = run(meson + ['setup', '--backend=none'] + (['-Dpopt=zz'] if how == 'invalid' else []) + ['build', 'src'], d, env)
                 if flag.exists():
                     flag.unlink()
+            elif a == 'SetupFailPost':
+                pcflag.write_text('x')
+                rc, out = run(meson + ['setup', '--backend=none'] + flags + ['build', 'src'], d, env)
+                pcflag.unlink()
+                if 'Postconf script' not in out:
+                    how = 'NOT-THE-POSTCONF-SCRIPT'
+            elif a == 'ReconfigureFailPost':
+                pcflag.write_text('x')
+                rc, out = run(meson + ['setup', '--reconfigure'] + flags + ['build', 'src'], d, env)
+                pcflag.unlink()
+                if 'Postconf script' not in out:
+                    how = 'NOT-THE-POSTCONF-SCRIPT'
             elif a == 'Configure':
                 rc, out = run(meson + ['configure', 'build'] + flags, d, env)
             elif a == 'ConfigureBad':
@@ -231,8 +298,7 @@ def replay_history(job: T.Tuple[str, T.List[T.Dict[str, T.Any]], int]) -> T.Dict
             else:
                 raise MachineryError('unknown action ' + a)
             if a == 'Edit':
-                obs = {'skip': True, 'exists': False, 'v': NONE, 'ch': [], 'x': NONE, 'dl': NONE, 'subdl': NONE, 'sp': NONE,
-                       'sf': NONE, 'lv': NONE, 'ar': NONE, 'sch': [], 'cmd': {k: NONE for k in DKEY}, 'mv': NONE, 'msp': NONE, 'msubdl': NONE, 'msf': NONE}
+                obs = blank_obs(True)
             else:
                 try:
                     obs = observe(d, env, out, configuring and rc == 0)
@@ -281,14 +347,16 @@ def mc_cfg(maxlen: int, mode: str, emit: bool) -> str:
     return cfg
 
 
-def export_histories(chk: Check, maxlen: int, simulate: T.Optional[int] = None) -> T.List[T.Tuple[T.List[T.Dict[str, T.Any]], T.List[str]]]:
+def export_histories(maxlen: int, mode: str = 'replay', simulate: T.Optional[int] = None,
+                     seed: int = 0) -> T.Tuple[T.List[T.Tuple[T.List[T.Dict[str, T.Any]], T.List[str]]], T.Any]:
+    """the complete histories of `maxlen` events of a replay alphabet (all of them, or `simulate` random ones), each
+    with the situation tags the model attaches; returns (histories, TLC result)"""
     if simulate is None:
-        res = run_tlc(SPECS / 'options', 'OptionLifecycle_MC', cfg_text=mc_cfg(maxlen, 'replay', True), workers=1, timeout=3000,
+        res = run_tlc(SPECS / 'options', 'OptionLifecycle_MC', cfg_text=mc_cfg(maxlen, mode, True), workers=1, timeout=3000,
                       allow_violation=False)
-        chk.add_tlc(f'OptionLifecycle_MC[replay,MaxLen={maxlen}]', res)
     else:
-        res = run_tlc(SPECS / 'options', 'OptionLifecycle_MC', cfg_text=mc_cfg(maxlen, 'replay', True), workers=1, timeout=3000,
-                      simulate=f'num={simulate}', depth=maxlen + 1, tlc_seed=chk.seed + 1)
+        res = run_tlc(SPECS / 'options', 'OptionLifecycle_MC', cfg_text=mc_cfg(maxlen, mode, True), workers=1, timeout=3000,
+                      simulate=f'num={simulate}', depth=maxlen + 1, tlc_seed=seed + 1)
         if res.invariant_violated or res.deadlock:
             raise MachineryError('simulation of OptionLifecycle_MC reported a problem:\n' + res.stdout[-1500:])
     hs = [([norm_event(e) for e in rec['h']], sorted(rec['tags'])) for rec in res.json_lines()]
@@ -302,7 +370,7 @@ def export_histories(chk: Check, maxlen: int, simulate: T.Optional[int] = None) 
         else:       # the same commands with the other allowed outcome of a no-op configure: merge the tags
             j = seen[k]
             out[j] = (out[j][0], sorted(set(out[j][1]) | set(tags)))
-    return out
+    return out, res
 
 
 def covering_sample(hs: T.List[T.Tuple[T.List[T.Dict[str, T.Any]], T.List[str]]], n: int, per_tag: int,
@@ -360,36 +428,84 @@ def judge(chk: Check, cases: T.List[T.Dict[str, T.Any]], label: str) -> None:
                                                         'optfile': c.get('optfile')})
 
 
-def main(chk: Check) -> None:
-    quick = chk.tier == 'quick'
-    rnd = random.Random(chk.seed)
-    n_mc = 3 if quick else 4
-    n_short = 80 if quick else 3600      # thorough: a covering sample of the ~5300 three-event histories (time budget)
-    n_long = 14 if quick else 300
-    long_len = 6 if quick else 7
-    chk.rule = ('every complete history of 3 events over the replay alphabet exported by TLC (quick: seeded sample) plus '
-                'TLC-simulated longer histories, each replayed with the real CLI; non-trivial = the history contains at '
-                'least one -D/-U after setup or an option-file edit followed by a command (distinct histories)')
-    cfg = mc_cfg(n_mc, 'full', False)
-    res = run_tlc(SPECS / 'options', 'OptionLifecycle_MC', cfg_text=cfg, timeout=3000, allow_violation=False)
-    chk.add_tlc(f'OptionLifecycle_MC[full,MaxLen={n_mc}]', res)
-    short = export_histories(chk, 3)
-    chk.extra['histories_len3_total'] = len(short)
-    chk.extra['situation_tags'] = sorted({t for _, tags in short for t in tags})
-    short = covering_sample(short, n_short, 3, rnd)
-    longer = export_histories(chk, long_len, simulate=max(60, n_long))
-    # situations that need more than three events (a value invalidated by a choice edit, an option removed after it
-    # existed, ...) come from the longer histories: cover those first
+Hist = T.Tuple[T.List[T.Dict[str, T.Any]], T.List[str]]
+
+
+def long_sample(short: T.List[Hist], longer: T.List[Hist], n_long: int, rnd: random.Random) -> T.List[Hist]:
+    """situations that need more events than the exhaustive histories have (a value invalidated by a choice edit, an
+    option removed after it existed, ...) come from the simulated longer histories: cover those first"""
     seen_tags = {t for _, tags in short for t in tags}
     rare = [x for x in longer if set(x[1]) - seen_tags]
     longer = (covering_sample(rare, min(len(rare), max(2, n_long // 2)), 2, rnd) if rare else []) + \
         covering_sample(longer, n_long, 1, rnd)
-    uniq: T.Dict[str, T.Tuple[T.List[T.Dict[str, T.Any]], T.List[str]]] = {}
+    uniq: T.Dict[str, Hist] = {}
     for h, tags in longer:
         uniq.setdefault(hist_id(h), (h, tags))
-    longer = list(uniq.values())[:n_long]
-    chk.extra['situation_tags_long'] = sorted({t for _, tags in longer for t in tags})
-    hists = [h for h, _ in short + longer]
+    return list(uniq.values())[:n_long]
+
+
+def plan(chk: Check) -> T.List[T.List[T.Dict[str, T.Any]]]:
+    """model checking, export of the histories, the seeded selection of those that are replayed"""
+    from concurrent.futures import ThreadPoolExecutor
+    quick = chk.tier == 'quick'
+    rnd = random.Random(chk.seed)
+    n_mc = 3 if quick else 4
+    n_mc_pair = 4 if quick else 5
+    n_short = 80 if quick else 3600      # thorough: a covering sample of the ~5300 three-event histories (time budget)
+    n_long = 14 if quick else 300
+    n_ren = 36 if quick else 700        # three-event histories over the deprecated options / late failures / deleted file
+    n_pair = 36 if quick else 500       # four-event histories over one (old name, replacement) pair
+    n_ren_long = 8 if quick else 80
+    long_len = 6 if quick else 7
+    chk.rule = ('every complete history of 3 events over the replay alphabets and of 4 events over one renamed pair exported by '
+                'TLC (quick: seeded samples covering every situation tag) plus '
+                'TLC-simulated longer histories, each replayed with the real CLI; non-trivial = the history contains at '
+                'least one -D/-U after setup or an option-file edit followed by a command (distinct histories)')
+    # the TLC runs that do not depend on each other run side by side
+    jobs_tlc: T.Dict[str, T.Callable[[], T.Any]] = {
+        f'OptionLifecycle_MC[full,MaxLen={n_mc}]':
+            lambda: run_tlc(SPECS / 'options', 'OptionLifecycle_MC', cfg_text=mc_cfg(n_mc, 'full', False), timeout=3000, allow_violation=False),
+        f'OptionLifecycle_MC[fullren,MaxLen={n_mc}]':
+            lambda: run_tlc(SPECS / 'options', 'OptionLifecycle_MC', cfg_text=mc_cfg(n_mc, 'fullren', False), timeout=6000, allow_violation=False),
+        f'OptionLifecycle_MC[fullpair,MaxLen={n_mc_pair}]':
+            lambda: run_tlc(SPECS / 'options', 'OptionLifecycle_MC', cfg_text=mc_cfg(n_mc_pair, 'fullpair', False), timeout=6000, allow_violation=False),
+        'OptionLifecycle_MC[replay,MaxLen=3]': lambda: export_histories(3, 'replay'),
+        'OptionLifecycle_MC[replayren,MaxLen=3]': lambda: export_histories(3, 'replayren'),
+        'OptionLifecycle_MC[replaypair,MaxLen=4]': lambda: export_histories(4, 'replaypair'),
+        'sim:replay': lambda: export_histories(long_len, 'replay', simulate=max(60, n_long), seed=chk.seed),
+        'sim:replayren': lambda: export_histories(long_len, 'replayren', simulate=max(60, n_ren_long), seed=chk.seed + 7),
+        'sim:replaypair': lambda: export_histories(long_len, 'replaypair', simulate=max(60, n_ren_long), seed=chk.seed + 13),
+    }
+    with ThreadPoolExecutor(max_workers=3 if quick else 2) as tex:
+        futs = {name: tex.submit(fn) for name, fn in jobs_tlc.items()}
+        results = {name: fut.result() for name, fut in futs.items()}
+    for name, r in results.items():
+        if name.startswith('sim:'):
+            continue
+        chk.add_tlc(name, r[1] if isinstance(r, tuple) else r)
+    short_all, ren_all, pair_all = (results[f'OptionLifecycle_MC[{m}]'][0] for m in ('replay,MaxLen=3', 'replayren,MaxLen=3', 'replaypair,MaxLen=4'))
+    chk.extra['histories_len3_total'] = len(short_all)
+    chk.extra['histories_ren_len3_total'] = len(ren_all)
+    chk.extra['histories_pair_len4_total'] = len(pair_all)
+    chk.extra['situation_tags'] = sorted({t for _, tags in short_all + ren_all + pair_all for t in tags})
+    short = covering_sample(short_all, n_short, 3, rnd)
+    # (a situation of these families shows a deviation whenever it occurs: one history per tag, the rest at random)
+    ren = covering_sample(ren_all, n_ren, 1 if quick else 3, rnd)
+    pair = covering_sample(pair_all, n_pair, 1 if quick else 3, rnd)
+    longer = long_sample(short, results['sim:replay'][0], n_long, rnd)
+    longer_ren = long_sample(ren + pair, results['sim:replayren'][0] + results['sim:replaypair'][0], n_ren_long, rnd)
+    chk.extra['situation_tags_long'] = sorted({t for _, tags in longer + longer_ren for t in tags})
+    chk.extra['situation_tags_replayed'] = sorted({t for _, tags in short + ren + pair + longer + longer_ren for t in tags})
+    uniq: T.Dict[str, T.List[T.Dict[str, T.Any]]] = {}
+    for h, _ in short + ren + pair + longer + longer_ren:
+        uniq.setdefault(hist_id(h), h)
+    chk.extra['longer_histories'] = len(longer) + len(longer_ren)
+    chk.exhaustive = (not quick) and len(short_all) <= n_short and len(ren_all) <= n_ren and len(pair_all) <= n_pair
+    return list(uniq.values())
+
+
+def main(chk: Check) -> None:
+    hists = plan(chk)
     jobs = [(hist_id(h), h, chk.seed * 104729 + i) for i, h in enumerate(hists)]
     jobs.sort(key=lambda j: -len(j[1]))
     with ProcessPoolExecutor(max_workers=common.NCPU) as ex:
@@ -401,23 +517,33 @@ def main(chk: Check) -> None:
             chk.nontriv(c['id'])
     for c in done[:: max(1, len(done) // 4)][:4]:
         chk.sample({'history': c['id'], 'steps': [{'a': e['a'], 'D': e['D'], 'rc': e['rc'],
-                                                    'obs': {k: e['obs'][k] for k in ('exists', 'v', 'ch', 'x', 'dl', 'subdl', 'sp', 'sf', 'lv', 'ar', 'sch', 'cmd')}}
+                                                    'obs': {k: e['obs'][k] for k in ('exists', 'v', 'ch', 'x', 'dl', 'subdl', 'sp', 'sf', 'lv', 'ar', 'sch', 'o', 'cmd')}}
                                                    for e in c['ev']]})
     judge(chk, done, 'A')
     chk.extra['histories_replayed'] = len(done)
-    chk.extra['longer_histories'] = len(longer)
     chk.extra['commands_run'] = sum(1 for c in done for e in c['ev'] if e['a'] != 'Edit')
-    chk.exhaustive = (not quick) and chk.extra['histories_len3_total'] <= n_short
     chk.assumptions += [
         'one project shape: top-level combo option popt (choices edited), string option xopt (added/removed), boolean option '
         'flag (never changed), integer option level (min/max edited: raise min, lower max, both), array option arr (given '
         'empty with -Darr=; xopt is also given empty, sub:flag also given false), subproject options popt '
         'and flag with yield:true, builtin default_library with a sub:default_library override',
-        'the recorded command line is observed as the [options] section of meson-private/cmd_line.txt (the file --wipe replays)',
+        'deprecated options in the same option file: five options replaced by an option of another name (deprecated: \'newname\'; combo, '
+        'boolean, string, array, and the documentation\'s boolean replaced by a feature with a value map), the old and the new name '
+        'declared with different defaults; an array with deprecated: {\'a\': \'c\'}, a boolean with deprecated: true, an array with '
+        'deprecated: [\'a\'] (the last two only warn); one assignment per command (the order of -Dold -Dnew inside one command is not modelled)',
+        'the builtin pair buildtype / debug as an order-dependent pair: only debug is observed (what buildtype itself shows after an '
+        'explicit debug, and optimization, are C07\'s); buildtype is given only values other than the one it has and never its default '
+        '"debug" (the tree expands buildtype only when its value changes, the documentation says always - C07)',
+        'late failures: a postconf script (meson.add_postconf_script) that exits non-zero during setup / setup --reconfigure',
+        'the option file of the top-level project is deleted / re-created only while no value of one of its options is recorded (a '
+        'recorded value of a vanished option is the known finding stale-x); while it is gone the effective values of the yielding '
+        'subproject options (whose parents vanished) are not compared',
+        'the recorded command line is observed as the [options] section of meson-private/cmd_line.txt (the file --wipe replays); its '
+        'order is not observed, only what --wipe makes of it',
         'a -D of `setup --reconfigure` is generated only when it is valid both for the stored and for the edited option file '
         '(meson applies it before it re-reads the option file); --wipe only when the recorded command line still fits the option file',
         'a -D of `meson configure` is valid when it fits the edited option file (configure re-reads it first); the thorough tier '
-        'replays a seeded covering sample of 3600 of the three-event histories when there are more',
+        'replays seeded covering samples (3600 / 700 / 500) of the exported histories when there are more',
         '-U is generated for sub:popt, sub:flag and for an existing sub:default_library override only (-U of a missing override is an error)',
         'a `configure` that changes no value may leave an edited option file unprocessed (both outcomes allowed)',
         'effective subproject values are read from coredata.dat with the tree\'s own loader (introspection shows stored values '
